@@ -21,7 +21,7 @@ RENDER_C = "compiler/bitproto/renderer/impls/c/renderer_c.py"
 
 # variant -> (optimize, --endian, big-endian target?, property tags)
 VARIANTS = {
-    "std[le]": (False, "both", False, ["C03", "C07", "C12", "C14", "C16"]),
+    "std[le]": (False, "both", False, ["C03", "C07", "C11", "C12", "C14", "C16"]),
     "std[be]": (False, "both", True, ["C06", "C14"]),
     "opt[both,le]": (True, "both", False, ["C04", "C07", "C14"]),
     "opt[both,be]": (True, "both", True, ["C04", "C06", "C14"]),
@@ -98,6 +98,10 @@ def _mk(u: family.Unit, variant: str):
             res.error = "unsupported construct: %s" % (e,)
         except Exception as e:
             res.error = "engine exception: %r\n%s" % (e, traceback.format_exc(limit=12))
+            try:
+                res.obls = E.obls          # what was generated before the crash still counts (a refutation stays a refutation)
+            except NameError:
+                pass
         return res
 
     p = ProofDef(pid=pid, func="generated C %s (+ runtime)" % variant if not optimize else "generated C %s" % variant,
@@ -118,6 +122,8 @@ for _u in family.composite_units():
     if _u.name == "composite:enum-default-nonzero":
         continue        # a Python-only finding (C decodes into zeroed storage)
     _u.props_c = ["C03", "C04", "C06", "C07", "C12", "C16"]
+    if "imports" in _u.tags or _u.name == "composite:same-named-nested":
+        _u.props_c.append("C11")        # the generated code binds each reference to the definition the schema resolves it to
     for _v in VARIANTS:
         if VARIANTS[_v][0] and "traditional" not in _u.tags and "traditional-part" not in _u.tags:
             continue
